@@ -5,14 +5,15 @@ plug-in: run/reports_c14.py (what the reporters / the collector say about a fini
 
 1. TLC explores every small abstract model-after-the-run (tree shape x arbitrary final statuses), runs the transcribed
    consumers (SummaryReporterV1 tree walk with its exact key sets, the five line formats, SummaryReporterV2,
-   SummaryCollector through ModelVisitor) on it and checks the clauses on what they print; the defects of the code as
-   it is are named exception predicates (KF_C14_*), Summary_MC_strict.cfg shows that TLC finds them without.
+   SummaryCollector through ModelVisitor) on it and checks the clauses on what the judged ones print, without exception;
 2. a sample of the explored models is rebuilt as real behave models (statuses set through the public API, then read
    back) and given to the real reporters / collector;
 3. real runs of the run cluster (plan of run/stage.py: --stop, aborts, hook errors, de-selection, dry-run, outlines,
    rules) with --summary: the summary behave printed + fresh reporters per format + the collector on the model after
    the run.
-TLC (Summary_Trace) computes the census from the recorded final statuses and judges every row of 2 and 3."""
+TLC (Summary_Trace) computes the census from the recorded final statuses and judges every row of 2 and 3.
+Judged: the live summary, SummaryReporter (= V1) in every format, the collector.  SummaryReporterV2 is a class nothing
+instantiates: it is recorded and compared with its transcription (informational), never a violation."""
 import json
 import os
 import random
@@ -231,16 +232,7 @@ def run(chk):
     r = chk.tlc("Summary_MC", cfg, timeout=240 if quick else 1200, workers=WORKERS)
     for name in r.violated:
         chk.violation("C14.design." + name, "design:%s" % name, "TLC: invariant %s violated in Summary_MC (%s)" % (name, cfg))
-    rs = chk.tlc("Summary_MC", "Summary_MC_strict.cfg", timeout=120, workers=2, coverage=False)
-    chk.extra["design_strict_run_finds_known_defects"] = "ClausesHoldStrict" in rs.violated
-    if "ClausesHoldStrict" not in rs.violated:
-        chk.note("Summary_MC_strict: the transcription shows no defect any more -- the KF_C14_* exceptions of Summary.tla are stale")
     cases = sorted((json.loads(t[1]) for t in r.by_tag("CASE")), key=lambda c: json.dumps(c, sort_keys=True))
-    fam = {}
-    for c in cases:
-        for k in c["known"]:
-            fam[k] = fam.get(k, 0) + 1
-    chk.extra["design_known_families_in_emitted_models"] = fam
     chk.extra["design_models_explored"] = r.distinct
     want = 350 if quick else 4000
     if len(cases) > want:
@@ -291,14 +283,21 @@ def run(chk):
         classes["all_skipped"] += all(s == "skipped" for k, s in zip(kinds, jr["end"]["status"]) if k == "feature")
     verdicts = trace.judge_rows(chk, "Summary_Trace", rows, chunks=max(1, min(16, WORKERS)), min_chunk=100)
     chk.impl_traces = len(rows)
-    chk.evaluations = len(rows) * 12          # live + 2 x 5 reporters + collector per row
+    chk.evaluations = len(rows) * 7           # judged per row: live + 5 formats of SummaryReporter + collector
     div = {}
+    v2_div = 0
     for rid_, vs in verdicts.items():
         for v in vs:
             if v[2] == "DIVERGE":
+                if v[3] == "V2":            # unused class: compared with its transcription, informational only
+                    v2_div += 1
+                    continue
                 chk.divergences += 1
                 key = "%s/%s" % (v[3], v[4])
                 div.setdefault(key, meta[rid_]["input"])
+    chk.extra["reporter_v2_observations_differing_from_transcription"] = v2_div
+    if v2_div:
+        chk.note("INFO SummaryReporterV2 (unused class, not judged): %d observations differ from its transcription in Summary.tla" % v2_div)
     if div:
         chk.extra["divergence_samples"] = {k: div[k] for k in sorted(div)[:5]}
         chk.note("DIVERGENCE spec=Summary: %d reporter observations differ from the prediction of Summary.tla (informational): %s" % (
@@ -322,12 +321,14 @@ def run(chk):
     chk.rule = ("design: every status assignment (per kind: all statuses a run can produce) on %d tree shapes up to 2 features x 4 scenarios x "
                 "2 steps (TLC, exhaustive per shape and status domain); binding: a seeded sample of these models rebuilt on real model "
                 "objects + a seeded sample of the run-cluster plan (exhaustive family `scen`, random `tree`/`big`, x configurations x hook "
-                "fault sets) + anchor programs, each observed through the live summary, 2 x 5 fresh reporters and the collector; "
+                "fault sets) + anchor programs, each observed through the live summary, a fresh SummaryReporter per format and the collector; "
                 "distinct = distinct models / (program, cfg, fault set)") % (6 if quick else 13)
     chk.assumptions = [
         "the final statuses are those of the model objects after the run (read through .status of every element, all_steps of every scenario)",
-        "the live summary is judged only when the run came to its end (an escaped exception is C01's business); the fresh reporters and the "
+        "the live summary is judged only when the run came to its end (an escaped exception is C01's business); the fresh SummaryReporter per format and the "
         "collector are judged on every model",
+        "SummaryReporterV2 (nothing instantiates it; SummaryReporter = SummaryReporterV1) is not the end-of-run summary of the statement: "
+        "observed and compared with its transcription only",
         "summary lines are recognised by one regular expression per documented format; status names and file:line are read, wording is not",
         "duplicates in the failing / errored lists are not judged (the statement speaks of the listed scenarios as a set)",
         "hook_errors / hook_failed counters of SummaryCounts are not part of the statement and not judged",
